@@ -22,6 +22,7 @@ import (
 type Rec struct {
 	t        *testing.T
 	prop     string
+	prefix   string // line-protocol prefix (model selector in the Lean driver)
 	dir      string
 	ops      *bufio.Writer
 	impl     *bufio.Writer
@@ -72,7 +73,7 @@ func NewRec(t *testing.T, prop string) *Rec {
 	}
 	seed := envInt("VERIF_SEED", 1)
 	r := &Rec{
-		t: t, prop: prop, dir: dir, opsF: of, implF: inf,
+		t: t, prop: prop, prefix: prop, dir: dir, opsF: of, implF: inf,
 		ops: bufio.NewWriter(of), impl: bufio.NewWriter(inf),
 		Stats: map[string]int{}, distinct: map[string]struct{}{},
 		Seed: seed, N: int(envInt("VERIF_N", 200)),
@@ -87,7 +88,7 @@ func (r *Rec) Op(line string, implOut string) {
 	if strings.ContainsAny(line, "\n") || strings.ContainsAny(implOut, "\n") {
 		r.t.Fatalf("newline in protocol line: %q / %q", line, implOut)
 	}
-	fmt.Fprintf(r.ops, "%s %s\n", r.prop, line)
+	fmt.Fprintf(r.ops, "%s %s\n", r.prefix, line)
 	fmt.Fprintf(r.impl, "%s\n", implOut)
 	r.n++
 	if len(r.Samples) < 12 && r.Rng.Intn(1+r.n/4) == 0 {
